@@ -7,8 +7,11 @@
     SM/Replay.v (StateApplyManager start-up: load_index -> load_snapshot -> load_log).
     Components enter through the interface {apply; snapshot; load_record; observe(=ceq)} with
     their round-trip law as hypothesis (MCP, direct cache, naming, ... are validated by the
-    `restart` harness only; concrete Config / Sequence models: another package). *)
-From RN Require Import SM.Replay SM.ReplayProofs RaftLog.SnapFileProofs SM.SnapshotInst.
+    `restart` harness only).  Round 2 (end of this file): the premises are discharged for the
+    concrete Config / Sequence / Table components (SM/Concrete.v over builder E's store model,
+    SM/SnapCodec.v over builder B's protobuf wire layer) and the C20 framing theorem. *)
+From RN Require Import SM.Replay SM.ReplayProofs RaftLog.SnapFileProofs Codec.BufReaderProofs SM.SnapshotInst
+     SM.Concrete SM.SnapCodecProofs SM.ConcreteProofs SM.ConcreteInst SM.ConcreteNs SM.ConcreteNsProofs Base.SMap SM.ConfigKey.
 
 (** Every tree name that a component's source writes is dispatched back to that component by
     the generated load_snapshot table (finite check over the Gen tables); the generated
@@ -25,18 +28,17 @@ Qed.
 (** the exceptions are real (a sequence named SEQ_CONFIG would be loaded into Config; a table
     with another name is dropped by load_snapshot) — both are outside the served state *)
 Theorem C01_tree_name_exceptions :
-  route load_arms "T_SEQUENCE" "SEQ_CONFIG" = Some (KConfig, LInnerSetLastId) /\
-  (forall key, route load_arms "T_OTHER" key = None).
+  route load_arms (bytes_of_lit "T_SEQUENCE") (bytes_of_lit "SEQ_CONFIG") = Some (KConfig, LInnerSetLastId) /\
+  (forall key, route load_arms (bytes_of_lit "T_OTHER") key = None).
 Proof. exact (conj seq_config_key_misrouted other_table_dropped). Qed.
 
 (** Snapshot file round trip through the framing layer: what SnapshotWriter wrote is what
     SnapshotReader returns, whatever an earlier file of the same name contained (repaired
-    writer).  [framing] is the C20 theorem chunking_invariance in the instance used here. *)
+    writer).  The framing layer is the C20 theorem chunking_invariance (no premise left);
+    [rec_ok] = non-empty body of bytes, shorter than 2^64. *)
 Theorem C01_snapshot_file_roundtrip :
-  forall (framing : forall bodies : list (list N), Forall nonempty bodies ->
-            feed_drain (blocks1024 (concat (map frame bodies))) mbr_new = Ok (map frame bodies))
-         (leftover hdr : list N) (recs : list (list N)),
-    nonempty hdr -> Forall nonempty recs -> (length (frame hdr) <= 1024)%nat ->
+  forall (leftover hdr : list N) (recs : list (list N)),
+    rec_ok hdr -> Forall rec_ok recs -> (length (frame hdr) <= 1024)%nat ->
     snap_read (write_truncate leftover (snap_image hdr recs)) = Ok (frame hdr, map frame recs).
 Proof. exact snap_roundtrip_over_leftover. Qed.
 
@@ -49,17 +51,20 @@ Theorem C01_restart_reproduces :
          (capply : comp -> S -> M -> S) (csnap : comp -> S -> list record)
          (cload : comp -> load_msg -> S -> record -> S) (cinit : comp -> S)
          (ceq : comp -> S -> S -> Prop),
-    (forall c s, ceq c s s) ->
+    (forall c s1 s2 s3, ceq c s1 s2 -> ceq c s2 s3 -> ceq c s1 s3) ->
     (forall c s1 s2 m, ceq c s1 s2 -> ceq c (capply c s1 m) (capply c s2 m)) ->
+    (* invariant of reachable component states / messages in scope / snapshot-encodable states *)
+    forall (cinv : comp -> S -> Prop) (mok : comp -> M -> Prop) (cok : comp -> S -> Prop),
+    (forall c s, cinv c s -> ceq c s s) ->
+    (forall c, cinv c (cinit c)) ->
+    (forall c s m, cinv c s -> mok c m -> cinv c (capply c s m)) ->
     (* component laws *)
-    (forall c s r, In r (csnap c s) -> routed_to c (rtree r) (rkey r)) ->
-    (forall c s, ceq c (fold_left (cload_routed S cload c) (csnap c s) (cinit c)) s) ->
-    forall (enc : record -> list N) (dec_frame : list N -> option record),
-    (* C20 framing *)
-    (forall bodies : list (list N), Forall nonempty bodies ->
-       feed_drain (blocks1024 (concat (map frame bodies))) mbr_new = Ok (map frame bodies)) ->
-    forall (hist : list (entry M)) (k : nat) (leftover hdr : list N),
-      (k <= length hist)%nat ->
+    (forall c s r, cinv c s -> cok c s -> In r (csnap c s) -> routed_to c (rtree r) (rkey r)) ->
+    (forall c s, cinv c s -> cok c s -> ceq c (fold_left (cload_routed S cload c) (csnap c s) (cinit c)) s) ->
+    forall (enc : record -> list N) (dec_frame : list N -> option record)
+           (hist : list (entry M)) (k : nat) (leftover hdr : list N),
+      (k <= length hist)%nat -> Forall (entry_ok M mok) hist ->
+      (forall c, cok c (run S M capply (firstn k hist) (init_node S cinit) c)) ->
       codec_ok enc dec_frame hdr
                (build_snapshot S csnap (run S M capply (firstn k hist) (init_node S cinit))) ->
       exists nd,
@@ -73,10 +78,16 @@ Theorem C01_restart_state :
          (capply : comp -> S -> M -> S) (csnap : comp -> S -> list record)
          (cload : comp -> load_msg -> S -> record -> S) (cinit : comp -> S)
          (ceq : comp -> S -> S -> Prop),
+    (forall c s1 s2 s3, ceq c s1 s2 -> ceq c s2 s3 -> ceq c s1 s3) ->
     (forall c s1 s2 m, ceq c s1 s2 -> ceq c (capply c s1 m) (capply c s2 m)) ->
-    (forall c s r, In r (csnap c s) -> routed_to c (rtree r) (rkey r)) ->
-    (forall c s, ceq c (fold_left (cload_routed S cload c) (csnap c s) (cinit c)) s) ->
-    forall (hist : list (entry M)) (k : nat), (k <= length hist)%nat ->
+    forall (cinv : comp -> S -> Prop) (mok : comp -> M -> Prop) (cok : comp -> S -> Prop),
+    (forall c s, cinv c s -> ceq c s s) ->
+    (forall c, cinv c (cinit c)) ->
+    (forall c s m, cinv c s -> mok c m -> cinv c (capply c s m)) ->
+    (forall c s r, cinv c s -> cok c s -> In r (csnap c s) -> routed_to c (rtree r) (rkey r)) ->
+    (forall c s, cinv c s -> cok c s -> ceq c (fold_left (cload_routed S cload c) (csnap c s) (cinit c)) s) ->
+    forall (hist : list (entry M)) (k : nat), (k <= length hist)%nat -> Forall (entry_ok M mok) hist ->
+    (forall c, cok c (run S M capply (firstn k hist) (init_node S cinit) c)) ->
     forall c, ceq c (start_up S M capply cload cinit
                               (Some (k, build_snapshot S csnap (run S M capply (firstn k hist) (init_node S cinit))))
                               hist (length hist) c)
@@ -100,19 +111,19 @@ Proof. exact interrupted_compaction_harmless. Qed.
     over the leftover a, b, c: after the restart the deleted c is served again. *)
 Theorem C01_interrupted_compaction_harmless_refuted :
   exists (hist : list (entry kvmsg)) (k : nat) (leftover hdr : list N),
-    res_map (fun nd => lookupk "c" (nd KTable))
+    res_map (fun nd => lookupk (kb "c") (nd KTable))
             (restart kvstate kvmsg kapply ksnap kload kinit enc_rec dec_frame1 write_in_place leftover hdr hist k)
-    <> res_map (fun nd => lookupk "c" (nd KTable))
+    <> res_map (fun nd => lookupk (kb "c") (nd KTable))
                (restart kvstate kvmsg kapply ksnap kload kinit enc_rec dec_frame1 write_in_place [] hdr hist k).
 Proof. exact interrupted_compaction_harmless_refuted. Qed.
 
 (** the regression pair on the concrete key-value node: old writer resurrects c, repaired
     writer serves exactly the pre-stop state *)
 Theorem C01_regression_pair :
-  (served (kv_restart write_in_place) "c" = Ok (Some [3]%N)) /\
-  (served (kv_restart write_truncate) "a" = Ok (Some [1]%N) /\
-   served (kv_restart write_truncate) "b" = Ok (Some [2]%N) /\
-   served (kv_restart write_truncate) "c" = Ok None) /\
+  (served (kv_restart write_in_place) (kb "c") = Ok (Some [3]%N)) /\
+  (served (kv_restart write_truncate) (kb "a") = Ok (Some [1]%N) /\
+   served (kv_restart write_truncate) (kb "b") = Ok (Some [2]%N) /\
+   served (kv_restart write_truncate) (kb "c") = Ok None) /\
   snap_read (write_in_place (snap_image w_hdr [w_a; w_b; w_c]) (snap_image w_hdr [w_a; w_b]))
   = Ok (frame w_hdr, [frame w_a; frame w_b; frame w_c]).
 Proof.
@@ -150,13 +161,18 @@ Theorem C01_restart_racy_idempotent :
          (capply : comp -> S -> M -> S) (csnap : comp -> S -> list record)
          (cload : comp -> load_msg -> S -> record -> S) (cinit : comp -> S)
          (ceq : comp -> S -> S -> Prop),
-    (forall c s, ceq c s s) ->
     (forall c s1 s2 s3, ceq c s1 s2 -> ceq c s2 s3 -> ceq c s1 s3) ->
     (forall c s1 s2 m, ceq c s1 s2 -> ceq c (capply c s1 m) (capply c s2 m)) ->
-    (forall c s r, In r (csnap c s) -> routed_to c (rtree r) (rkey r)) ->
-    (forall c s, ceq c (fold_left (cload_routed S cload c) (csnap c s) (cinit c)) s) ->
+    forall (cinv : comp -> S -> Prop) (mok : comp -> M -> Prop) (cok : comp -> S -> Prop),
+    (forall c s, cinv c s -> ceq c s s) ->
+    (forall c, cinv c (cinit c)) ->
+    (forall c s m, cinv c s -> mok c m -> cinv c (capply c s m)) ->
+    (forall c s r, cinv c s -> cok c s -> In r (csnap c s) -> routed_to c (rtree r) (rkey r)) ->
+    (forall c s, cinv c s -> cok c s -> ceq c (fold_left (cload_routed S cload c) (csnap c s) (cinit c)) s) ->
     forall (hist : list (entry M)) (k : nat) (j : comp -> nat) (c : comp),
+      Forall (entry_ok M mok) hist ->
       replay_idempotent S M capply ceq c ->
+      (forall d, cok d (run S M capply (firstn (k + j d) hist) (init_node S cinit) d)) ->
       ceq c (restart_racy S M capply csnap cload cinit hist k j c)
             (run S M capply hist (init_node S cinit) c).
 Proof. exact restart_racy_idempotent. Qed.
@@ -168,3 +184,119 @@ Theorem C01_replay_idempotence_instances :
   (forall c s1 s2 m, keq c s1 s2 -> keq c (kapply c s1 m) (kapply c s2 m)) /\
   ~ replay_idempotent N N rapply req_ KConfig.
 Proof. exact (conj kv_replay_idempotent (conj keq_apply_cong reg_not_replay_idempotent)). Qed.
+
+(** * Round 2: the component premises discharged by concrete models *)
+
+(** The record codec (LogSnapshotItem over the protobuf wire layer): what SnapshotWriter writes
+    for a record is decoded back to the same record by SnapshotReader::read_record. *)
+Theorem C01_record_codec_roundtrip :
+  forall r, wf_record r -> dec_item_frame (frame (enc_item r)) = Some r /\ rec_ok (enc_item r).
+Proof. exact (fun r W => conj (item_roundtrip r W) (item_rec_ok r W)). Qed.
+
+(** ConfigValueDO (prost) round trip: content, every history item (id, content, time, user, in
+    order), type and description survive to_bytes / from_bytes; and a value as the committed
+    commands leave it (not temporary, md5 = H content, normalised type, last_modified = time of
+    the newest history item) is rebuilt EXACTLY by From<ConfigValueDO> — md5 recomputed,
+    tmp = false, type re-normalised, last_modified re-derived. *)
+Theorem C01_config_value_roundtrip :
+  forall (H : str -> str) (v : cvalue),
+    wf_value v -> canon v -> cv_md5 v = H (cv_content v) ->
+    res_map (value_of_do H) (dec_value (enc_value v)) = Ok v.
+Proof.
+  exact (fun H v W C M => eq_trans (f_equal (res_map (value_of_do H)) (value_roundtrip v W))
+                                   (f_equal Ok (value_do_id H v C M))).
+Qed.
+
+(** The config store's snapshot round-trip law: loading its own snapshot (one T_CONFIG record
+    per key + the SEQ_CONFIG record) into a fresh ConfigActor gives the same cache (content,
+    md5, type, desc, history, last_modified of every key), the same set of listed keys and the
+    same history-id high-water mark.  [cfg_inv] holds in every state reached by committed
+    commands on a node without temporary (follower-routed) values. *)
+Theorem C01_config_snapshot_roundtrip :
+  forall (H : str -> str) (s : store),
+    cfg_inv H s -> cfg_ok s ->
+    exists s', fold_left (cload_routed cstate (n_load H) KConfig) (n_snap KConfig (SCfg s)) (n_init KConfig) = SCfg s'
+               /\ cfg_eqw s' s.
+Proof. exact cfg_roundtrip. Qed.
+
+(** all seven concrete components (Config, Sequence, Table; the other four are unit) *)
+Theorem C01_component_roundtrip_laws :
+  forall (H : str -> str) (c : comp) (st : cstate),
+    n_inv H c st -> n_ok c st ->
+    n_eq c (fold_left (cload_routed cstate (n_load H) c) (n_snap c st) (n_init c)) st.
+Proof. exact n_roundtrip. Qed.
+
+(** C01 WITHOUT component premises, framing premise or codec premise: for every history of
+    committed config (ConfigSet / ConfigFullValue / ConfigRemove), sequence and table
+    requests, every compaction point k and every leftover of an interrupted attempt, the node
+    restarted from the snapshot FILE BYTES + log serves the same config cache, listed keys,
+    history-id high-water mark, sequence counters and table rows as the node that ran the
+    history.  Remaining hypotheses: the requests are in scope ([n_mok]: imported keys are
+    ConfigKeys, sequence key <> "SEQ_CONFIG", tables T_USER / T_CACHE), and the state at the
+    compaction point is encodable ([n_ok]: byte strings, ids and counters below 2^64). *)
+Theorem C01_restart_reproduces_config_seq :
+  forall (H : str -> str) (hist : list (entry cmsg)) (k : nat) (leftover hdr : list N),
+    (k <= length hist)%nat ->
+    Forall (entry_ok cmsg n_mok) hist ->
+    (forall c, n_ok c (run cstate cmsg (n_apply H) (firstn k hist) (init_node cstate n_init) c)) ->
+    rec_ok hdr -> (length (frame hdr) <= 1024)%nat ->
+    exists nd,
+      restart cstate cmsg (n_apply H) n_snap (n_load H) n_init enc_item dec_item_frame
+              write_truncate leftover hdr hist k = Ok nd /\
+      forall c, n_eq c (nd c) (run cstate cmsg (n_apply H) hist (init_node cstate n_init) c).
+Proof. exact restart_reproduces_config_seq. Qed.
+
+(** its hypotheses are satisfiable: a history over the three components, compaction at 4 *)
+Theorem C01_config_seq_satisfiable :
+  Forall (entry_ok cmsg n_mok) ex_hist /\ (forall c, n_ok c (ex_state 4 c)) /\
+  (rec_ok ex_hdr /\ (length (frame ex_hdr) <= 1024)%nat) /\
+  ex_state 9 KSequence = SSeq [(b "seq1", 102%N)].
+Proof. exact (conj ex_entries_ok (conj ex_ok_at_4 (conj ex_hdr_ok (proj1 (proj2 ex_outcome))))). Qed.
+
+(** the exclusion in [cfg_inv] is real: a temporary (SetTmpValue) value does not survive a
+    snapshot as temporary, and the history item of its later commit is lost on the restarted
+    node (model-level; see SM/ConcreteInst.v) *)
+Theorem C01_tmp_value_snapshot_refuted :
+  ti_mem (st_index tmp_store) tmp_key = false /\
+  option_map (fun v => length (cv_hist v)) (cache_get (cfg_apply H0 tmp_store tmp_add) tmp_key) = Some 1%nat /\
+  match reload tmp_store with
+  | SCfg s' => ti_mem (st_index s') tmp_key = true /\
+               option_map cv_tmp (cache_get s' tmp_key) = Some false /\
+               option_map (fun v => length (cv_hist v)) (cache_get (cfg_apply H0 s' tmp_add) tmp_key) = Some 0%nat
+  | _ => False
+  end.
+Proof. exact tmp_value_snapshot_refuted. Qed.
+
+(** NamespaceActor (concrete model SM/ConcreteNs.v, literal incl. the marker): the snapshot
+    round-trip law with its EXACT exclusions.  For a state reached by raft requests on non-empty
+    ids ([ns_inv]: "" = public/SYSTEM, every other id has exactly the USER flag — i.e. no weak
+    CONFIG/NAMING flags), before InitFromOldValue was applied and with byte-string ids/names:
+    the reloaded actor has the same namespaces (id -> name, flag) and the same already_sync
+    flag.  The list ORDER is not part of the law (build_snapshot iterates a HashMap). *)
+Theorem C01_namespace_snapshot_roundtrip :
+  forall s : nsstate,
+    ns_inv s -> ns_already s = false -> sm_get str_cmp (ns_data s) NS_MARK = None ->
+    Forall wf_ns_entry (ns_data s) ->
+    ns_data (ns_reload s) = ns_data s /\ ns_already (ns_reload s) = false.
+Proof. exact ns_snapshot_roundtrip. Qed.
+
+(** [ns_inv] is preserved by every raft request that names a non-empty id *)
+Theorem C01_namespace_invariant :
+  ns_inv ns_init /\ forall s r, ns_inv s -> ns_mok r -> ns_inv (ns_apply s r).
+Proof. exact (conj ns_init_inv ns_apply_inv). Qed.
+
+(** REFUTED without [ns_already = false] (known finding C01:namespace-already-sync-marker):
+    after InitFromOldValue the marker record comes back as an ordinary namespace *)
+Theorem C01_namespace_marker_refuted :
+  ns_inv ns_after_init /\ ns_already ns_after_init = true /\
+  sm_get str_cmp (ns_data ns_after_init) NS_MARK = None /\
+  sm_get str_cmp (ns_data (ns_reload ns_after_init)) NS_MARK = Some (mkNs [] F_USER).
+Proof. exact marker_loaded_as_namespace. Qed.
+
+(** the law's hypotheses are satisfiable (create, rename, add-only, delete) *)
+Theorem C01_namespace_law_satisfiable :
+  ns_inv ns_example /\ ns_already ns_example = false /\ sm_get str_cmp (ns_data ns_example) NS_MARK = None /\
+  Forall wf_ns_entry (ns_data ns_example) /\
+  ns_data ns_example = [([], mkNs NS_PUBLIC F_SYSTEM); (nsb "dev", mkNs (nsb "Dev 2") F_USER)] /\
+  ns_data (ns_reload ns_example) = ns_data ns_example.
+Proof. exact ns_example_in_scope. Qed.
